@@ -541,6 +541,7 @@ inline int main_driver(int argc, char **argv, const char *prop, std::function<vo
             jobs[k].run(l, st, viol, &pg[k], js[k].skip, samples, counters);
             save_child(tmpdir + "/job" + std::to_string(k) + ".txt", st, viol, samples, counters);
             fflush(stdout);
+            VF_COV_DUMP();
             _exit(0);
         }
         js[k].pid = p;
